@@ -72,17 +72,17 @@ def spec(info, q):
 
 
 def gen_text_case(rng):
-    refs = [f'r{i}' for i in range(rng.randint(1, 3))]
-    langs = ['en', 'de', 'fr'][:rng.randint(1, 3)]
+    refs = ['r0', 'R0', 'r1 '][:rng.randint(1, 3)]                 # look-alikes: every comparison is exact
+    langs = ['en-US', 'en-us', 'fr'][:rng.randint(1, 3)]
     store = []
     for _ in range(rng.randint(0, 8)):
         nl = rng.randint(1, 3)
         store.append({'text': '\n'.join('x' * rng.randint(1, 3) for _ in range(nl)), 'lang': rng.choice(langs),
                       'ref': rng.choice(refs), 'ver': rng.choice([None, 0, 0, 1, 1, 2, 3]),
                       'width': rng.choice([None, 0, 1, 2, 3, 4, 5])})
-    f = {'refs': rng.sample(refs + ['zz'], rng.randint(0, 2)) if rng.random() < 0.6 else [],
+    f = {'refs': rng.sample(list(dict.fromkeys(refs + ['zz', 'R0'])), rng.randint(0, 2)) if rng.random() < 0.6 else [],
          'version': rng.choice([None, None, 0, 0, 1, 2, 4]),
-         'langs': rng.sample(langs + ['it'], rng.randint(0, 2)) if rng.random() < 0.5 else [],
+         'langs': rng.sample(list(dict.fromkeys(langs + ['it', 'en-us'])), rng.randint(0, 2)) if rng.random() < 0.5 else [],
          'widths': rng.sample(range(6), rng.randint(0, 2)) if rng.random() < 0.5 else [],
          'lines': rng.sample([1, 2, 3], rng.randint(0, 2)) if rng.random() < 0.5 else []}
     return {'store': store, 'filter': f}
@@ -115,12 +115,49 @@ def text_oracle(case, ids):
 
 # ---------------------------------------------------------------- histories on one storage, through the handlers
 WN = ['xs', 's', 'm', 'l', 'xl', 'xxl']
-LANGS = ['en', 'de', 'fr', 'it', 'es']
-LINES = ['x', 'y', 'xx']
+# language tags: lower case, region / script / variant subtags in their usual mixed case, private use, and tags that
+# differ ONLY in case (for the library 'en-US' and 'en-us' are two languages: every comparison is exact)
+LANG_TWINS = [['en-US', 'en-us', 'EN-US'], ['de-DE', 'de-de'], ['zh-Hant', 'zh-hant'], ['en', 'EN'], ['sr-Latn-RS', 'sr-latn-rs']]
+LANG_PLAIN = ['fr', 'it', 'es', 'de', 'x-a1', 'de-1996', 'pt-BR']
+LANGS = [x for tw in LANG_TWINS for x in tw] + LANG_PLAIN
+LANG_NEVER = ['pt', 'PT', 'en-Us', 'De-de']                     # requested, never stored
+# Refs that differ only in case, in surrounding / inner blanks, or in Unicode normalisation (NFC vs NFD of "cafe" + acute)
+REF_TWINS = [['r0', 'R0'], ['r1', ' r1', 'r1 '], ['caf\u00e9', 'cafe\u0301'], ['a b', 'a  b'], ['Vol', 'vol']]
+REF_PLAIN = ['r2', 'r3', 'press.1']
+REF_NEVER = ['zz', 'ZZ', ' zz']
+LINES = ['x', 'y', 'xx', 'X', ' x', 'x ']
+
+
+def asc(s):
+    return str(s).encode('ascii', 'backslashreplace').decode()
+
+
+def norm_ref(r):
+    import unicodedata
+    return ' '.join(unicodedata.normalize('NFC', r).lower().split())
+
+
+def pick_pool(rng, twins, plain, n):
+    """n values; at least one family of look-alikes is in with two members"""
+    fam = rng.choice(twins)
+    pool = rng.sample(fam, min(len(fam), rng.choice([2, 2, 3])))
+    rest = [x for tw in twins for x in tw if x not in pool] + plain
+    while len(pool) < n:
+        x = rng.choice(rest)
+        if x not in pool:
+            pool.append(x)
+    rng.shuffle(pool)
+    return pool[:max(n, 2)]
 
 
 def tkey(t):
     return (t['ref'], t['lang'], t['ver'], t['width'], t['text'])
+
+
+def near(rng, twins, have, never):
+    """a value that is NOT stored: preferably a look-alike of a stored one (same family), else one of `never`"""
+    cand = [x for fam in twins if any(y in have for y in fam) for x in fam if x not in have]
+    return rng.choice(cand) if cand and rng.random() < 0.6 else rng.choice(never)
 
 
 def gen_filter(rng, ref_pool, lang_pool, stored):
@@ -128,11 +165,12 @@ def gen_filter(rng, ref_pool, lang_pool, stored):
     f = {'refs': [], 'version': None, 'langs': [], 'widths': [], 'lines': []}
     vers = sorted({t['ver'] for t in stored if t['ver'] is not None}) or [0]
     if kind in ('refs', 'mixed', 'size') and (kind == 'refs' or rng.random() < 0.6):
-        f['refs'] = rng.sample(ref_pool + ['zz'], rng.randint(1, min(3, len(ref_pool) + 1)))
+        f['refs'] = rng.sample(ref_pool + [near(rng, REF_TWINS, {t['ref'] for t in stored}, REF_NEVER)],
+                               rng.randint(1, min(3, len(ref_pool) + 1)))
         if rng.random() < 0.15:
             f['refs'].append(rng.choice(f['refs']))                 # a Ref named twice
     if kind in ('langs', 'mixed', 'size') and (kind == 'langs' or rng.random() < 0.5):
-        f['langs'] = rng.sample(lang_pool + ['pt'], rng.randint(1, 2))
+        f['langs'] = rng.sample(lang_pool + [near(rng, LANG_TWINS, {t['lang'] for t in stored}, LANG_NEVER)], rng.randint(1, 2))
     if kind in ('version', 'mixed', 'size') and (kind == 'version' or rng.random() < 0.5):
         f['version'] = rng.choice(vers + [0, max(vers) + 1])
     if kind == 'size':
@@ -147,8 +185,8 @@ def gen_filter(rng, ref_pool, lang_pool, stored):
 def gen_history(rng, n_ops):
     """add (new Ref / known Ref + new language / width or line-count variant / new version / exact duplicate, also the
     same Python object again) interleaved with GetSupportedLanguages and GetLocalizedText"""
-    ref_pool = [f'r{i}' for i in range(rng.randint(2, 4))]
-    lang_pool = LANGS[:rng.randint(2, 5)]
+    ref_pool = pick_pool(rng, REF_TWINS, REF_PLAIN, rng.randint(2, 4))
+    lang_pool = pick_pool(rng, LANG_TWINS, LANG_PLAIN, rng.randint(2, 5))
     stored, ops, n = [], [], 0
 
     def text(nl=None):
@@ -424,6 +462,9 @@ def run(ctx):
     lap('texts done')
     # ---------------------------------------------------------------- histories through the real service handlers
     from collections import Counter
+
+    def hfail(what, sig, rep):
+        return ctx.fail(asc(what), sig, rep)
     hcases = [gen_history(ctx.rng, ctx.rng.randint(10, 26)) for _ in range(ctx.n(60, 900))]
     hres = ctx.impl('c20_impl', {'worlds': [], 'hist': hcases}, timeout=900)
     lap('text_histories: implementation run done')
@@ -439,12 +480,14 @@ def run(ctx):
         hist = {'add': 0, 'langs': 0, 'text_no_size': 0, 'text_widths': 0, 'text_lines': 0, 'text_both': 0,
                 'ref_named_twice': 0, 'unknown_ref_requested': 0, 'empty_answer': 0, 'answers_with_repeated_text': 0,
                 'langs_after_new_lang_for_known_ref': 0, 'queries_on_store_with_equal_ref_lang_version': 0,
+                'langs_with_upper_case_stored': 0, 'langs_with_case_twins_stored': 0,
+                'text_lang_requested_is_case_twin_of_stored_only': 0, 'text_ref_requested_is_lookalike_of_stored_only': 0,
                 'wire_exchanges': 0}
         addk = Counter()
         hlits, hkeys = [], []
         for case, r in zip(hcases, hres['hist']):
-            sid = {x: i + 1 for i, x in enumerate(case['ref_pool'] + ['zz'])}
-            lid = {x: i + 1 for i, x in enumerate(LANGS + ['pt'])}
+            sid = {x: i + 1 for i, x in enumerate([x for tw in REF_TWINS for x in tw] + REF_PLAIN + REF_NEVER)}
+            lid = {x: i + 1 for i, x in enumerate(LANGS + LANG_NEVER)}
             stored, ids, lops, expect = [], {}, [], []
             answers = iter(r['answers'])
             langs_asked = False
@@ -469,7 +512,7 @@ def run(ctx):
                           'stored_at_that_moment': [list(tkey(t)) for t in stored], 'answer': a}
                 hist['wire_exchanges'] += a.get('wire', 0)
                 if 'error' in a:
-                    ctx.fail(f'{op["op"]} request failed: {a["error"]}', {'stream': 'text_histories', 'clause': 'error'}, replay)
+                    hfail(f'{op["op"]} request failed: {a["error"]}', {'stream': 'text_histories', 'clause': 'error'}, replay)
                     bad = True
                     break
                 if a.get('wire') != 1 or a.get('status') != [200] or not a.get('to_handler'):
@@ -477,10 +520,13 @@ def run(ctx):
                 if op['op'] == 'langs':
                     hist['langs'] += 1
                     hist['langs_after_new_lang_for_known_ref'] += armed
+                    sl = {t['lang'] for t in stored}
+                    hist['langs_with_upper_case_stored'] += any(x != x.lower() for x in sl)
+                    hist['langs_with_case_twins_stored'] += len({x.lower() for x in sl}) < len(sl)
                     langs_asked = True
                     want = sorted({t['lang'] for t in stored})
                     if sorted(a['langs']) != want:
-                        ctx.fail(f'GetSupportedLanguages answered {sorted(a["langs"])} but the stored languages are {want} '
+                        hfail(f'GetSupportedLanguages answered {sorted(a["langs"])} but the stored languages are {want} '
                                  f'(history of {oi + 1} operations, last add: '
                                  f'{[tkey(t) for o in case["ops"][:oi] if o["op"] == "add" for t in o["texts"]][-1:]})',
                                  {'stream': 'text_histories', 'clause': 'languages'}, replay)
@@ -493,13 +539,18 @@ def run(ctx):
                 hist['ref_named_twice'] += len(set(f['refs'])) != len(f['refs'])
                 hist['unknown_ref_requested'] += any(all(s['ref'] != x for s in stored) for x in f['refs'])
                 hist['empty_answer'] += not a['texts']
+                sl, sr = {t['lang'] for t in stored}, {t['ref'] for t in stored}
+                hist['text_lang_requested_is_case_twin_of_stored_only'] += any(
+                    x not in sl and x.lower() in {y.lower() for y in sl} for x in f['langs'])
+                hist['text_ref_requested_is_lookalike_of_stored_only'] += any(
+                    x not in sr and norm_ref(x) in {norm_ref(y) for y in sr} for x in f['refs'])
                 hist['queries_on_store_with_equal_ref_lang_version'] += (
                     len({(t['ref'], t['lang'], t['ver']) for t in stored}) < len({tkey(t) for t in stored}))
                 got = [(x[0], x[1], x[2], WN.index(x[3]) if x[3] in WN else x[3], x[4]) for x in a['texts']]
                 hist['answers_with_repeated_text'] += any(c > Counter(tkey(t) for t in stored)[k] for k, c in Counter(got).items())
                 why = hist_text_oracle(stored, f, got)
                 if why:
-                    ctx.fail(f'GetLocalizedText(refs={f["refs"]}, version={f["version"]}, langs={f["langs"]}, '
+                    hfail(f'GetLocalizedText(refs={f["refs"]}, version={f["version"]}, langs={f["langs"]}, '
                              f'widths={[WN[x] for x in f["widths"]]}, lines={f["lines"]}) through the service handler, '
                              f'{len(stored)} texts stored: {why[1]}',
                              {'stream': 'text_histories', 'clause': why[0], 'mode': mode}, replay)
@@ -512,7 +563,7 @@ def run(ctx):
             # the storage holds exactly what was added (no request stored or dropped a text)
             fin = Counter((x[0], x[1], x[2], WN.index(x[3]) if x[3] in WN else x[3], x[4]) for x in r['final'])
             if fin != Counter(tkey(t) for t in stored):
-                ctx.fail('after the history the storage does not hold exactly the added texts',
+                hfail('after the history the storage does not hold exactly the added texts',
                          {'stream': 'text_histories', 'clause': 'storage content'},
                          {'stream': 'text_histories', 'case': case, 'final': r['final']})
             hlits.append((f'srt (run_hist bk [{"; ".join(lops)}] [])',
